@@ -1092,8 +1092,9 @@ class Canon(Family):
     prelude = PRELUDE
 
     def coq_check(self, case, obs):
-        """The canonical sorter (site, canonical mutation, edge, migration passes of
-        tsk_table_sorter_run) applied to the implementation's own subset() output."""
+        """The canonical sorter (edge, migration, site, canonical mutation and canonical
+        individual passes of tsk_table_sorter_run) applied to the implementation's own subset()
+        output; individuals and nodes.individual are compared too."""
         terms = []
         for side in ("a", "b"):
             o = obs[side]
@@ -1101,8 +1102,10 @@ class Canon(Family):
                 continue
             if key_ties(o["subset"]) or mixed_times(o["subset"]) or "mutation-key-tie" in tie_classes(o["subset"]):
                 continue
-            terms.append("J_eqb (j_res (sorter_run Qmerge true None %s)) %s"
-                         % (coq_tables(o["subset"]), j_ok(j_tables(o["out"]))))
+            inds_nodes = jlist([jlist([jlist(["JZ %s" % cz(i[0]), jints(i[1]), jints(i[2]), jints(bytes.fromhex(i[3]))])
+                                       for i in o["out"]["individuals"]]), jints([n[3] for n in o["out"]["nodes"]])])
+            terms.append("J_eqb (j_res_with j_tables_inds (canonical_sorter_run Qmerge qs_ind_merge %s)) %s"
+                         % (coq_tables(o["subset"]), j_ok(jlist([j_tables(o["out"]), inds_nodes]))))
         return " && ".join(terms) if terms else None
 
     def generate(self, rng, tier):
@@ -1117,7 +1120,11 @@ class Canon(Family):
                 for p in all_or_some_perms(rng, n, cap=40):
                     yield {"desc": d, "perms_a": {}, "perms_b": {t: p}, "remove_unreferenced": True}
         for k in range(nrand):
-            d = base_desc(rng, small=rng.random() < 0.3)
+            if rng.random() < 0.25:
+                d = pedigree_desc(rng)       # 2-6 individuals with parents, nodes referring to them
+                d["migrations"] = []
+            else:
+                d = base_desc(rng, small=rng.random() < 0.3)
             if rng.random() < 0.75:
                 d["migrations"] = []
             if d["mutations"] and not any(m[4] is None for m in d["mutations"]) and rng.random() < 0.6:
@@ -2061,7 +2068,7 @@ FAMILIES = [Sort, Repair, MutParents, Canon, Dedup, Squash, Index, SortInv, Sort
 
 NOT_COVERED = [
     "canonicalise() with a non-empty migration table: tsk_table_collection_subset returns TSK_ERR_MIGRATIONS_NOT_SUPPORTED, so no canonical output exists to compare",
-    "tsk_table_sorter_sort_individuals_canonical (canonicalise's individual ordering) is only checked through the row-order invariance oracle of family canon, not modelled",
+    "tsk_table_collection_subset (the first half of canonicalise) is not modelled: the canonical sorter model runs on the implementation's own subset() output",
     "mutation tables mixing known and unknown times inside one site (cmp_mutation is not transitive there; every later integrity check rejects them)",
     "glibc qsort itself (assumed: returns a sorted permutation; stability not assumed)",
 ]
